@@ -9,6 +9,7 @@ import (
 	"encoding/json"
 	"fmt"
 	"sort"
+	"strings"
 	"testing"
 	"time"
 
@@ -38,9 +39,9 @@ type Plan struct {
 	// Election: that many accounts register as candidates and all accounts vote for them in block 2.
 	Election int `json:"election,omitempty"`
 	// property specific
-	Crash   *CrashPlan   `json:"crash,omitempty"`
-	Corrupt []CorruptOp  `json:"corrupt,omitempty"`
-	Atom    *AtomPlan    `json:"atom,omitempty"`
+	Crash   *CrashPlan  `json:"crash,omitempty"`
+	Corrupt []CorruptOp `json:"corrupt,omitempty"`
+	Atom    *AtomPlan   `json:"atom,omitempty"`
 }
 
 // Engine implements sim.Engine.
@@ -127,21 +128,23 @@ func (Engine) Draw(rt *rapid.T, prop, tier string) any {
 
 // run is the state of one execution.
 type run struct {
-	t     *testing.T
-	prop  string
-	plan  *Plan
-	out   *sim.Outcome
-	log   *sim.Log
-	tape  *sim.Tape
-	P     *Node
-	prod  *producer
-	w     *world
-	nodes []*Node
-	ref   map[uint32]*Observation // reference observation per height (taken on P)
-	raw   map[uint32][]byte       // encoded block per height
-	blks  map[uint32]*block.Block
-	fail  *sim.Violation
-	flats map[uint32]*flatState
+	t            *testing.T
+	prop         string
+	plan         *Plan
+	out          *sim.Outcome
+	log          *sim.Log
+	tape         *sim.Tape
+	P            *Node
+	prod         *producer
+	w            *world
+	nodes        []*Node
+	ref          map[uint32]*Observation // reference observation per height (taken on P)
+	raw          map[uint32][]byte       // encoded block per height
+	blks         map[uint32]*block.Block
+	fail         *sim.Violation
+	flats        map[uint32]*flatState
+	soft         *sim.Violation // recorded-finding class seen in this run (reported only if nothing else fails)
+	c06Delivered bool
 }
 
 func (r *run) violate(v *sim.Violation) {
@@ -189,6 +192,9 @@ func (Engine) Run(t *testing.T, prop string, planAny any) *sim.Outcome {
 	})
 	if bv != nil && r.fail == nil {
 		r.fail = bv
+	}
+	if r.fail == nil {
+		r.fail = r.soft
 	}
 	r.out.Violation = r.fail
 	r.out.Log = r.log.Lines
@@ -567,6 +573,9 @@ func (r *run) compare(n *Node, h uint32, when string) {
 		msg := fmt.Sprintf("%s (%+v) differs from the producer at height %d %s in %v", n.Name, n.Local, h, when, d)
 		for _, s := range d {
 			msg += fmt.Sprintf("\n  %s: node=%s\n  %s: ref =%s", s, clip(obs.Detail[s]), s, clip(ref.Detail[s]))
+			if s == "storage" {
+				msg += "\n  storage diff: " + clip(listDiff(obs.Dump, ref.Dump))
+			}
 		}
 		r.violate(sim.Violatef("divergence", "divergence/"+when+"/"+d[0], "%s", msg))
 	}
@@ -609,4 +618,27 @@ func (r *run) finalChecks(reps []*Node) {
 		}
 	}
 	r.out.StateHash = st
+}
+
+func listDiff(a, b []string) string {
+	am := map[string]bool{}
+	for _, x := range a {
+		am[x] = true
+	}
+	bm := map[string]bool{}
+	for _, x := range b {
+		bm[x] = true
+	}
+	var d []string
+	for _, x := range a {
+		if !bm[x] {
+			d = append(d, "node-only "+x)
+		}
+	}
+	for _, x := range b {
+		if !am[x] {
+			d = append(d, "ref-only "+x)
+		}
+	}
+	return strings.Join(d, "; ")
 }
